@@ -171,6 +171,8 @@ class Program:
             k = min(len(fsegs), len(segs))
             if fsegs[-k:] == segs[-k:]:
                 c.append(f)
+        if len(c) > 1 and len({f.name for f in c}) == 1 and len({f.crate for f in c}) == 1:
+            c = c[:1]
         if len(c) == 1: return c[0]
         if len(c) > 1:
             # prefer the same crate as the caller
